@@ -6,7 +6,10 @@ Inductive case :=
 (* one evolve call; obs = the returned array or the exception *)
 | CEvolve (c : call) (obs : res (list (list Z)))
 (* several evolve calls made back to back in one process; one observation per call *)
-| CHistory (calls : list call) (obs : list (res (list (list Z)))).
+| CHistory (calls : list call) (obs : list (res (list (list Z))))
+(* a case outside the model's assumptions (rule results not representable in the dtype: open finding
+   'cast-path'); nothing is compared here, the Python oracle speaks about it *)
+| CNotCompared.
 
 Definition arr_result (r : call_result) : res (list (list Z)) :=
   match r with Ok (_, a) => Ok a | Raise e => Raise e end.
@@ -16,12 +19,14 @@ Definition model_out (c : case) : list (res (list (list Z))) :=
   match c with
   | CEvolve cl _ => [arr_result (run_call cl)]
   | CHistory calls _ => map arr_result (run_process calls)
+  | CNotCompared => []
   end.
 
 Definition observed (c : case) : list (res (list (list Z))) :=
   match c with
   | CEvolve _ o => [o]
   | CHistory _ os => os
+  | CNotCompared => []
   end.
 
 (* the property only says an unsupported option is rejected: any exception class agrees *)
